@@ -130,11 +130,23 @@ def compatible(c1, c2):
     return True
 
 
-def piece_source(t, removes):
+def piece_source(t, removes, conds=(), facts=None):
     """classify where a piece/colour argument of `put` comes from"""
     if t is None:
         return 'n/a'
     if t[0] == 'agg' and t[1] == 'adt':
+        # a constant that the path has just established to be the value taken off the board is that value
+        # (`Some((Piece::Pawn, c)) => put(sq, Piece::Pawn, c)` is `Some((p, c)) if p == Pawn => put(sq, p, c)`)
+        if facts is not None and t[2] in facts.adts:
+            try:
+                dv = facts.variant_discr(t[2], t[3])
+            except Exception:
+                dv = None
+            for a, v in conds:
+                if a[0] == 'discr' and v == dv and isinstance(v, int) and a[1][0] == 'fld':
+                    for i, r in enumerate(removes):
+                        if any(s_ == r for s_ in subterms(a[1])):
+                            return 'const:%s=removed#%d' % (t[3], i)
         return 'const:' + str(t[3])
     for s in subterms(t):
         if s[0] == 'fld' and s[2] in ('captures', 'Some.0') and any(x[0] == 'fld' and x[2] == 'captures' for x in subterms(s)):
@@ -207,8 +219,8 @@ def r2_mirror(ctx):
                             continue
                         # oa is apply's remove whose result must be what undo puts back
                         cls = classify_removed(a, oa[4], aops)
-                        src_p = piece_source(ou[2], u_removes)
-                        src_c = piece_source(ou[3], u_removes)
+                        src_p = piece_source(ou[2], u_removes, u.conds, ctx.facts)
+                        src_c = piece_source(ou[3], u_removes, u.conds, ctx.facts)
                         ok = provenance_ok(cls, src_p, src_c)
                         ctx.ob(rule, unn, 'put-back on %s: piece<-%s colour<-%s (apply removed: %s)' % (
                             show(s), src_p, src_c, cls), ok,
@@ -247,7 +259,7 @@ def classify_removed(o, rterm, aops):
 
 def provenance_ok(cls, src_p, src_c):
     if cls == 'mover':
-        return src_p.startswith('removed#') and (src_c.startswith('removed#') or src_c.startswith('const:'))
+        return (src_p.startswith('removed#') or '=removed#' in src_p) and (src_c.startswith('removed#') or src_c.startswith('const:'))
     if cls == 'checked-capture':
         return src_p == 'capture' and (src_c.endswith(':opposite') or src_c.startswith('const:'))
     if cls.startswith('checked-piece-discr'):
@@ -305,9 +317,9 @@ def r4_brackets(ctx):
         for f, b in facts.call_sites(callee, crate='chess', kinds=('lib',)):
             targets.add(f.name)
             site_count[callee.rsplit('::', 1)[-1]] += 1
-    ctx.floor(rule, 'ChessMove::apply call sites', len(facts.call_sites(APPLY, crate='chess')), 10)
-    ctx.floor(rule, 'ChessMove::undo call sites', len(facts.call_sites(UNDO, crate='chess')), 7)
-    ctx.floor(rule, 'Board::toggle_turn call sites', len(facts.call_sites(TOGGLE, crate='chess')), 10)
+    ctx.floor(rule, 'ChessMove::apply call sites', len(facts.call_sites(APPLY, crate='chess')), 5)
+    ctx.floor(rule, 'ChessMove::undo call sites', len(facts.call_sites(UNDO, crate='chess')), 3)
+    ctx.floor(rule, 'Board::toggle_turn call sites', len(facts.call_sites(TOGGLE, crate='chess')), 5)
     brackets = 0
     for name in sorted(targets):
         fn = facts.fns[name]
@@ -360,7 +372,7 @@ def r4_brackets(ctx):
         else:
             ctx.ob(rule, name, 'balanced (%d bracket(s), %d paths)' % (len(n_br), len(outs)), True)
     ctx.extra['brackets_found'] = brackets
-    ctx.floor(rule, 'apply/undo brackets on borrowed boards', brackets, 5)
+    ctx.floor(rule, 'apply/undo brackets on borrowed boards', brackets, 3)
     # every function that receives &mut Board and is not a root must not call raw mutators directly
     r4_raw_mutators(ctx)
 
@@ -381,7 +393,7 @@ def r4_raw_mutators(ctx):
                    expected='raw placement/stack mutators are used only by the four move kinds and by Board itself',
                    why='a raw mutation outside apply/undo has no inverse registered and breaks undo/neutrality',
                    nontrivial=False)
-    ctx.floor(rule, 'raw mutator call sites', n, 40)
+    ctx.floor(rule, 'raw mutator call sites', n, 20)
 
 
 def r5_primitives(ctx):
